@@ -26,7 +26,12 @@
    disjoint key sets), then returns [fval k]; calling it, each nested call and its return are
    separate steps, so other threads interleave with a running f.  A thread therefore has a
    stack of suspended frames (k, j): f_k waiting for its j-th nested Do to return, e.mu of k
-   held.  Ghost fields: [fbegins]/[fends] per entry, [rets] per thread (values returned by
+   held.  An invocation of f need not return: [crash k] = true models an f_k that, after its nested calls, PANICS or
+   calls runtime.Goexit instead of returning.  Do has no deferred Unlock, so the panic (recovered by whoever started
+   the goroutine, at the very bottom) or the Goexit unwinds through Do with e.mu of k -- and of every suspended
+   frame of the thread -- still held and e.done still 0: the goroutine is gone (its program is abandoned), the
+   entries stay locked for ever.  The ghost field [orph] counts these orphaned lock holders per entry.
+   Ghost fields: [fbegins]/[fends] per entry, [rets] per thread (values returned by
    the finished top-level calls, newest first), [nrets] (the same for nested calls). *)
 From Coq Require Import List Arith Bool.
 From GI Require Import Gen.ParConsts Par.ParWork.
@@ -50,9 +55,10 @@ Record entry := mkEntry {
   locked : bool;           (* e.mu *)
   result : option value;   (* e.result; None = nil *)
   fbegins : nat;           (* ghost: calls of f_k so far *)
-  fends : nat              (* ghost: returns of f_k so far *)
+  fends : nat;             (* ghost: returns of f_k so far *)
+  orph : nat               (* ghost: invocations of f_k that ended WITHOUT returning while e.mu was held by their thread *)
 }.
-Definition entry0 : entry := mkEntry false 0 false None 0 0.
+Definition entry0 : entry := mkEntry false 0 false None 0 0 0.
 
 Record thr := mkThr {
   tpc : cpc;
@@ -74,12 +80,19 @@ Definition upd (k : key) (e : entry) (m : key -> entry) : key -> entry :=
 (* atomic.LoadUint32(&e.done) == cache_done_test is false, i.e. "already computed" *)
 Definition isd (e : entry) : bool := negb (Nat.eqb (done e) cache_done_test).
 
-Definition set_present (e : entry) := mkEntry true (done e) (locked e) (result e) (fbegins e) (fends e).
-Definition set_done (d : nat) (e : entry) := mkEntry (present e) d (locked e) (result e) (fbegins e) (fends e).
-Definition set_locked (b : bool) (e : entry) := mkEntry (present e) (done e) b (result e) (fbegins e) (fends e).
-Definition set_result (v : option value) (e : entry) := mkEntry (present e) (done e) (locked e) v (fbegins e) (fends e).
-Definition inc_fbegins (e : entry) := mkEntry (present e) (done e) (locked e) (result e) (S (fbegins e)) (fends e).
-Definition inc_fends (e : entry) := mkEntry (present e) (done e) (locked e) (result e) (fbegins e) (S (fends e)).
+Definition set_present (e : entry) := mkEntry true (done e) (locked e) (result e) (fbegins e) (fends e) (orph e).
+Definition set_done (d : nat) (e : entry) := mkEntry (present e) d (locked e) (result e) (fbegins e) (fends e) (orph e).
+Definition set_locked (b : bool) (e : entry) := mkEntry (present e) (done e) b (result e) (fbegins e) (fends e) (orph e).
+Definition set_result (v : option value) (e : entry) := mkEntry (present e) (done e) (locked e) v (fbegins e) (fends e) (orph e).
+Definition inc_fbegins (e : entry) := mkEntry (present e) (done e) (locked e) (result e) (S (fbegins e)) (fends e) (orph e).
+Definition inc_fends (e : entry) := mkEntry (present e) (done e) (locked e) (result e) (fbegins e) (S (fends e)) (orph e).
+Definition add_orph (n : nat) (e : entry) := mkEntry (present e) (done e) (locked e) (result e) (fbegins e) (fends e) (n + orph e).
+
+(* the mutexes a thread holds when f_k0 fails at the top of the stack [st] of suspended frames: that of k0 and
+   those of the frames; [orphans k0 st k] is how many of them are e.mu of k (0 or 1 in reachable states) *)
+Definition orphans (k0 : key) (st : list (key * nat)) (k : key) : nat :=
+  (if Nat.eqb k0 k then 1 else 0) + length (filter (fun f : key * nat => Nat.eqb (fst f) k) st).
+
 
 (* the first pc of the next call of a program *)
 Definition start (l : list call) : cpc * list call :=
@@ -92,6 +105,9 @@ Definition start (l : list call) : cpc * list call :=
 (* the current call returns v *)
 Definition ret (th : thr) (c : call) (v : option value) : thr :=
   mkThr (fst (start (rest th))) (stack th) (snd (start (rest th))) ((c, v) :: rets th) (nrets th).
+
+(* the goroutine is gone: nothing left to run; what it returned so far stays on record *)
+Definition dead (th : thr) : thr := mkThr Idle [] [] (rets th) (nrets th).
 
 Definition goto (th : thr) (p : cpc) : thr := mkThr p (stack th) (rest th) (rets th) (nrets th).
 
@@ -109,6 +125,7 @@ Definition do_return (th : thr) (k : key) (v : option value) : thr :=
 Section Cache.
 Variable fval : key -> option value. (* what f_k() returns; None = the nil interface value *)
 Variable deps : key -> list key.    (* the keys f_k() calls Do on, in order, before returning *)
+Variable crash : key -> bool.       (* f_k() does not return: it panics / calls runtime.Goexit after its nested calls *)
 
 (* one step of thread t; None = t has no step (not a thread, finished, or blocked in Lock) *)
 Definition cstep (s : cstate) (t : thread) : option cstate :=
@@ -133,7 +150,9 @@ Definition cstep (s : cstate) (t : thread) : option cstate :=
           match nth_error (deps k) j with
           | Some d => Some (mkC (set_nth t (push th k (S j) d) (thrs s)) e (plain s))
           | None =>
-              Some (mkC (set_nth t (goto th (DWrite k (fval k))) (thrs s)) (upd k (inc_fends (e k)) e) (plain s))
+              if crash k
+              then Some (mkC (set_nth t (dead th) (thrs s)) (fun k' => add_orph (orphans k (stack th) k') (e k')) (plain s))
+              else Some (mkC (set_nth t (goto th (DWrite k (fval k))) (thrs s)) (upd k (inc_fends (e k)) e) (plain s))
           end
       | DWrite k v =>
           Some (mkC (set_nth t (goto th (DStore k)) (thrs s)) (upd k (set_result v (e k)) e)
